@@ -5,9 +5,12 @@
   `toksExpr e` is the token sequence the text `unparseExpr e` is meant to scan to; that it does scan to it is
   evaluated by the driver on every case of the correspondence run (`lex=1`), not proved here.
 
-  Status on the pinned tree: the full statement "parse (unparse p) = p up to `norm` for every tree the parser
-  can build" is FALSE. The theorems below hold on the decidable domain `wf` (Spec/Roundtrip.lean); the four
-  regions it excludes are witnessed after each theorem (negations proved by evaluation) and recorded as findings.
+  Status: the full statement "parse (unparse p) = p up to `norm` for every tree the parser can build" is
+  FALSE. The theorems below hold on the decidable domain `wf` (Spec/Roundtrip.lean); the three regions it
+  excludes (wrapped integer literals, 17-digit decimals, fused print items) are witnessed at the end
+  (negations proved by evaluation) and recorded as findings. A fourth region, DO statements whose expression
+  does not start with a word (`doHead`), was repaired in the code (1a89173: DOStatement::unparse writes its
+  keyword): its former negation witness `do (1 + 2);` is now the example of the positive `stmt_do_roundtrip`.
 -/
 import BlocV.Proofs.Lemmas.Parse
 
@@ -192,7 +195,102 @@ theorem stmt_let_chain (n : Bytes) (e : PExpr) (hn : nameOk n = true) (hwf : wf 
   have he' : pExpr f (toksExpr e ++ { code := 44, text := [44] } :: ts') = .ok (norm e, { code := 44, text := [44] } :: ts') := he
   simp [he', cCOMMA, hnext]
 
-/-! ### Where the full statement fails on the pinned tree (negations, by evaluation) -/
+/-! ### Statements: DO — saved WITH its keyword (DOStatement::unparse since 1a89173) -/
+
+/-- the text of a saved DO statement: the keyword, a blank, the expression — for every expression -/
+theorem stmt_do_text (lvl : Nat) (e : PExpr) : unparseStmt lvl (.doS e) = bytesOf "do " ++ unparseExpr e :=
+  unparseStmt_do lvl e
+
+example : unparseStmt 0 (.doS (.var (bytesOf "X"))) = bytesOf "do X" := by decide +kernel
+
+/-- **Round trip of DO statements.** `do e ;` as saved (`toksDo e` = the keyword, the tokens of the expression,
+the separator) reads back as the DO statement of `norm e`, whatever follows, at top level or in a block — for
+EVERY well-formed expression of the operator core. There is no hypothesis on how the text of `e` starts: the
+former exclusion `doHead e = false` (expression statements are recognised by a leading word, and only the
+expression used to be written) is gone with the defect. -/
+theorem stmt_do_roundtrip (e : PExpr) (hwf : wf e = true) (hcore : core e = true)
+    (nested : Bool) (rest : List Tok) (f : Nat) (hf : 16 * esize e + 14 ≤ f) :
+    pStmt f nested (toksDo e ++ rest) = .ok (some (.doS (norm e)), rest) := by
+  obtain ⟨f1, rfl⟩ : ∃ f1, f = f1 + 1 := ⟨f - 1, by omega⟩
+  have he := expr_roundtrip e hwf hcore (ch 59) rest semi_stops (fun _ => semi_not_lp) f1 (by omega)
+  have e1 : toksDo e ++ rest = kw "do" :: (toksExpr e ++ ch 59 :: rest) := by simp [toksDo]
+  rw [e1, pStmt_do, he]
+  simp [beyond, ch, cRP, cSEMI, bind, Except.bind, pure, Except.pure]
+
+/-- the former negation witness, `do (1 + 2);`: inside the region `doHead`, in the domain of the theorem -/
+def exDo : PExpr := .bin .add true (.int 1) (.int 2)
+
+example : doHead exDo = true ∧ wf exDo = true ∧ core exDo = true := by decide +kernel
+example : norm exDo = exDo := rfl
+example : unparseProgram [.doS exDo] = bytesOf "do (1 + 2);\n" := by decide +kernel
+/-- …its saved text scans (C13 lexer model) to the token list the theorem speaks about… -/
+example : tokensOf (unparseStmt 0 (.doS exDo) ++ [59]) = toksDo exDo := by decide +kernel
+/-- …and loads as the same statement (was: `(1 + 2);` is not a statement). -/
+example : pStmt 100 false (toksDo exDo ++ [kw "print"]) = .ok (some (.doS exDo), [kw "print"]) :=
+  stmt_do_roundtrip exDo (by decide +kernel) (by decide +kernel) false _ 100 (by decide +kernel)
+/-- the other members of the former region: `do 1;`, `do -X;`, `do "s";`, `do 2.5;` -/
+example : (pStmt 100 true (toksDo (.int 1))).toOption.isSome = true ∧
+    (pStmt 100 true (toksDo (.un .neg false (.var (bytesOf "X"))))).toOption.isSome = true ∧
+    (pStmt 100 true (toksDo (.str (bytesOf "s")))).toOption.isSome = true ∧
+    (pStmt 100 true (toksDo (.num 0x4004000000000000))).toOption.isSome = true := by decide +kernel
+
+/-- The keyword is what makes the text a statement: the expression text alone, which DOStatement::unparse
+wrote before the repair, is rejected (a fact about the parser, not a failure of the property any more). -/
+example : (pStmt 200 false (toksExpr exDo ++ [ch 59])).toOption.isNone = true := by decide +kernel
+
+/-- An expression statement written WITHOUT the keyword (`t.concat(5);`, `x + 1;`) is a DO statement too and is
+saved with the keyword; that text loads as the same statement and is saved as the same text (by evaluation,
+through the lexer model; members are outside `core`). -/
+example : (parseText (bytesOf "t.concat(5);\nx + 1;\n")).toOption.map unparseProgram = some (bytesOf "do T.concat(5);\ndo X + 1;\n") ∧
+    (parseText (bytesOf "do T.concat(5);\ndo X + 1;\n")).toOption.map unparseProgram = some (bytesOf "do T.concat(5);\ndo X + 1;\n") := by
+  decide +kernel
+
+/-- Chained: `NAME = e1 , do e2 ;` (`unparse_next` writes ` , ` and then the DO statement with its keyword). -/
+theorem stmt_let_do_chain (n : Bytes) (e1 e2 : PExpr) (hn : nameOk n = true)
+    (hwf1 : wf e1 = true) (hcore1 : core e1 = true) (hwf2 : wf e2 = true) (hcore2 : core e2 = true)
+    (nested : Bool) (rest : List Tok) (f : Nat) (hf1 : 16 * esize e1 + 13 ≤ f) (hf2 : 16 * esize e2 + 14 ≤ f) :
+    pStmt (f + 2) nested (⟨cKW, n⟩ :: ch 61 :: (toksExpr e1 ++ ch 44 :: (toksDo e2 ++ rest))) =
+      .ok (some (.letS n (norm e1) (some (.doS (norm e2)))), rest) :=
+  stmt_let_chain n e1 hn hwf1 hcore1 nested _ rest _ f hf1 (stmt_do_roundtrip e2 hwf2 hcore2 nested rest f hf2)
+
+example : pStmt 102 false (⟨cKW, bytesOf "A"⟩ :: ch 61 :: (toksExpr (.int 1) ++ ch 44 :: (toksDo exDo ++ []))) =
+    .ok (some (.letS (bytesOf "A") (.int 1) (some (.doS exDo))), []) :=
+  stmt_let_do_chain _ _ _ (by decide +kernel) (by decide +kernel) (by decide +kernel) (by decide +kernel) (by decide +kernel)
+    false [] 100 (by decide +kernel) (by decide +kernel)
+
+/-- **Fixpoint for DO statements** (all node kinds): the DO statement of the tree read back is saved as the same
+bytes, at every indentation level, and as the same tokens. -/
+theorem stmt_do_fixpoint (lvl : Nat) (e : PExpr) :
+    unparseStmt lvl (.doS (norm e)) = unparseStmt lvl (.doS e) ∧ toksDo (norm e) = toksDo e := by
+  simp [unparseStmt, toksDo, unparse_norm, toks_norm]
+
+/-- `do -A power 2;`: `norm` is not the identity here (`-(A power 2)` comes back enclosed), the text is the same -/
+def exDoNeg : PExpr := .un .neg false (.bin .exp false (.var (bytesOf "A")) (.int 2))
+example : norm exDoNeg = .un .neg false (.bin .exp true (.var (bytesOf "A")) (.int 2)) := rfl
+example : unparseStmt 1 (.doS (norm exDoNeg)) = bytesOf "do -(A power 2)" ∧
+    unparseStmt 1 (.doS exDoNeg) = bytesOf "do -(A power 2)" := by decide +kernel
+
+/-- with the round trip: unparse (parse (unparse (do e))) = unparse (do e) -/
+theorem stmt_do_fixpoint_core (e : PExpr) (hwf : wf e = true) (hcore : core e = true)
+    (nested : Bool) (rest : List Tok) (f : Nat) (hf : 16 * esize e + 14 ≤ f) (lvl : Nat) :
+    (pStmt f nested (toksDo e ++ rest)).toOption.map (fun r => r.1.map (unparseStmt lvl)) =
+      some (some (unparseStmt lvl (.doS e))) := by
+  rw [stmt_do_roundtrip e hwf hcore nested rest f hf]
+  simp [Except.toOption, (stmt_do_fixpoint lvl e).1]
+
+example : (pStmt 100 false (toksDo exDoNeg)).toOption.map (fun r => r.1.map (unparseStmt 0)) = some (some (bytesOf "do -(A power 2)")) := by
+  decide +kernel
+
+/-- **Behaviour of DO statements is preserved** (all node kinds): the statement read back translates to the same
+interpreter program. -/
+theorem stmt_do_behaviour (e : PExpr) : toStmts (.doS (norm e)) = toStmts (.doS e) := by
+  have h : ∀ x : PExpr, toStmts (.doS x) = (toExpr x).map fun y => [Stmt.doS y] := fun _ => rfl
+  rw [h, h, toExpr_norm]
+
+example : toStmts (.doS (norm exDoNeg)) = toStmts (.doS exDoNeg) ∧ (toStmts (.doS exDoNeg)).isSome = true :=
+  ⟨stmt_do_behaviour _, by decide +kernel⟩
+
+/-! ### Where the full statement fails (negations, by evaluation) -/
 
 /-- the text the tokens `ts` are read back to (`none` = rejected) -/
 def reText (ts : List Tok) : Option Bytes := (pExpr 200 ts).toOption.map fun r => unparseExpr r.1
@@ -210,8 +308,5 @@ example : reText (toksExpr (.int (-9223372036854775808)) ++ [ch 59]) = some (byt
 /-- print items `X` `(-1)` are written `X (-1)`, which reads back as ONE item, a call of a function X. -/
 example : (pItems 200 (toksExpr (.var (bytesOf "X")) ++ toksExpr (.un .neg true (.int 1)) ++ [ch 59])).toOption.map
     (fun r => r.1.map unparseExpr) = some [bytesOf "X(-1)"] := by decide +kernel
-
-/-- `do (1 + 2);` is written `(1 + 2);`, which is not a statement. -/
-example : (pStmt 200 false (toksExpr (.bin .add true (.int 1) (.int 2)) ++ [ch 59])).toOption.isNone = true := by decide +kernel
 
 end BlocV.C12
